@@ -71,6 +71,21 @@ class C02(Spec):
                         st['xdur'] = rng.choice([-1, 1, 3, 25])       # append(..., duration=) other than the waveform's
                 QC.spell(rng, c, finite_delays=True, p=1.0)
             yield c
+        # requests with decrement=False (trial counters untouched: the policy keeps cycling), alone and mixed with
+        # ordinary requests
+        for it in range(40 if tier == 'quick' else 700):
+            nst = rng.randint(1, 4)
+            c = {'kind': 'no-decrement', 'fs': rng.choice(QC.FS_LIST), 't0': rng.choice([0, 0.5, 1.2345])}
+            c.update(QC.policy_fields(rng.choice(QC.POLICIES), rng, nst))
+            c['stims'] = QC.rand_stims(rng, nst)
+            need = sum((s['len'] + 8) * (s['trials'] + 1) for s in c['stims'])
+            N = rng.choice([need + 5, max(3, need // 2)])
+            mixed = it % 3 == 0
+            c['ops'] = [['popnd' if (not mixed or rng.random() < 0.5) else 'pop', n]
+                        for n in rng.chunks(N, max_parts=rng.choice([2, 3, 8]))]
+            if it % 2:
+                QC.spell(rng, c, p=1.0)
+            yield c
         # a stimulus appended while the queue is running (before the earlier ones can have finished)
         for it in range(30 if tier == 'quick' else 500):
             nst = rng.randint(2, 4)
@@ -261,14 +276,20 @@ class C02(Spec):
         if N <= 1:
             return
         for _ in range(30):
-            yield dict(c, ops=[['pop', n] for n in rng.chunks(N, max_parts=6)], via='pop')
+            ops = []
+            for op in merged_ops(c['ops']):
+                if op[0] in ('pop', 'popnd') and op[1] > 1:
+                    ops += [[op[0], n] for n in rng.chunks(op[1], max_parts=6)]
+                else:
+                    ops.append(op)
+            yield dict(c, ops=ops, via='pop')
 
     def shrink_candidates(self, c):
         ops = c['ops']
         # merge adjacent pops
         for i in range(len(ops) - 1):
-            if ops[i][0] == 'pop' and ops[i + 1][0] == 'pop':
-                yield dict(c, ops=ops[:i] + [['pop', ops[i][1] + ops[i + 1][1]]] + ops[i + 2:])
+            if ops[i][0] in ('pop', 'popnd') and ops[i + 1][0] == ops[i][0]:
+                yield dict(c, ops=ops[:i] + [[ops[i][0], ops[i][1] + ops[i + 1][1]]] + ops[i + 2:])
         if len(ops) > 1:
             yield dict(c, ops=ops[:-1])
         for i in range(len(c['stims'])):
